@@ -69,7 +69,7 @@ def setup_worker(tier=None):
 def cases(tier, seed):
   out = []
   q = tier == 'quick'
-  n = 48 if q else 600
+  n = 48 if q else 6000
   for i in range(n):
     r = rng_for('c15', seed, i)
     sup = (i % 3 == 2)
@@ -97,6 +97,23 @@ def cases(tier, seed):
                        'classes': int(r.randint(2, 4)), 'variant': 'plain',
                        'nmax': 40},
                 'n_tuples': int(r.choice([12, 25, 40, 0, 1]) + d),
+                'seed': int(r.randint(1000))})
+  # the smallest legal training sets (n_triplets == n_features, + 1): the
+  # generated bases are linearly dependent, the learned matrix rank deficient
+  for i in range(60 if q else 1500):
+    r = rng_for('c15-tiny', seed, i)
+    d = int(r.randint(2, 5 if q else 7))
+    out.append({'est': 'SCML',
+                'params': {'basis': 'triplet_diffs', 'n_basis': None,
+                           'beta': [1e-5, 1e-2][i % 2],
+                           'gamma': [5e-3, 0.1, 1.0][i % 3],
+                           'batch_size': [5, 10, 1][(i // 2) % 3],
+                           'max_iter': [50, 300][(i // 3) % 2],
+                           'output_iter': [7, 50][(i // 6) % 2]},
+                'ds': {'seed': int(r.randint(2**31 - 1)), 'd': d,
+                       'classes': int(r.randint(2, 4)), 'variant': 'plain',
+                       'nmax': 40},
+                'n_tuples': d + int(i % 2),
                 'seed': int(r.randint(1000))})
   return out
 
